@@ -119,7 +119,7 @@ class Match(Generic[T]):
         self._update_fields(variable, parent)
         for attr_name, attr_assigned_value in self.kwargs.items():
             attr_assignment = AttributeAssignment(
-                attr_name, self.variable, attr_assigned_value
+                attr_name, self.variable, attr_assigned_value, self.type_
             )
             if isinstance(attr_assigned_value, Select):
                 self._update_selected_variables(attr_assignment.attr)
@@ -200,6 +200,11 @@ class AttributeAssignment:
     """
     The value to assign to the attribute, which can be a Match instance or a Literal.
     """
+    owner_type: Optional[Type] = None
+    """
+    The type the match constrains the variable to, the attribute is looked up there: it may be narrower than the
+    declared type of the variable.
+    """
     conditions: List[ConditionType] = field(init=False, default_factory=list)
     """
     The conditions that define attribute assignment.
@@ -275,7 +280,10 @@ class AttributeAssignment:
         :return: the attribute of the variable.
         :raises NoneWrappedFieldError: If the attribute does not have a WrappedField.
         """
-        attr: Attribute = getattr(self.variable, self.attr_name)
+        if self.owner_type is not None:
+            attr = Attribute(self.variable, self.attr_name, self.owner_type)
+        else:
+            attr: Attribute = getattr(self.variable, self.attr_name)
         if not attr._wrapped_field_:
             raise NoneWrappedFieldError(self.variable._type_, self.attr_name)
         return attr
